@@ -255,7 +255,10 @@ def _check_children(tag, g, fine, nchild, ordered):
     if Ef.shape[1] != nchild * ne:
         _fail(f"{tag}/count", f"{Ef.shape[1]} children for {ne} elements")
     ac, af = _areas(V, E), _areas(Vf, Ef)
-    if abs(af.sum() - ac.sum()) > 1e-11 * ac.sum():
+    # rounding of areas grows with |coordinates| / element size (cancellation in the edge vectors)
+    cond = float(np.max(np.abs(V))) / float(np.sqrt(np.min(af)) + 1e-300)
+    atol = 1e-11 + 1e-14 * cond
+    if abs(af.sum() - ac.sum()) > atol * ac.sum():
         _fail(f"{tag}/area", f"total area {af.sum()!r} vs {ac.sum()!r}")
     nc, nf = _normals(V, E), _normals(Vf, Ef)
     cent = (Vf[:, Ef[0]] + Vf[:, Ef[1]] + Vf[:, Ef[2]]).T / 3
@@ -279,7 +282,7 @@ def _check_children(tag, g, fine, nchild, ordered):
         if int(Df[j]) != int(D[par]):
             _fail(f"{tag}/domain", f"child {j} domain {Df[j]} vs parent {par} domain {D[par]}")
         per_parent[par] += af[j]
-    if np.max(np.abs(per_parent - ac)) > 1e-11 * ac.max():
+    if np.max(np.abs(per_parent - ac)) > atol * ac.max():
         _fail(f"{tag}/partition", "children of an element do not tile it")
 
 
